@@ -77,6 +77,26 @@ def _has(body, kinds, stop=("closure",)):
     return False
 
 
+def _has_own_jump(body):
+    """a break / continue that would leave or restart *this* loop body (those of nested loops and of the await desugaring are not ours)"""
+    stack = [body]
+    while stack:
+        x = stack.pop()
+        if isinstance(x, dict):
+            k = x.get("k")
+            if k in ("break", "continue"):
+                return True
+            if k in ("closure", "loop"):
+                continue
+            if k == "match" and x.get("src") in ("AwaitDesugar", "ForLoopDesugar"):
+                stack.append(x.get("e"))
+                continue
+            stack.extend(v for v in x.values() if isinstance(v, (dict, list)))
+        elif isinstance(x, list):
+            stack.extend(x)
+    return False
+
+
 def _remap(node, off, subst):
     """deep copy with binding ids shifted by `off`; var / upvar nodes whose (old) id is in `subst` are replaced by a copy of the expression"""
     if isinstance(node, list):
@@ -217,7 +237,7 @@ def _unroll(facts, n, stack):
         return None
     pat = sp["sub"][0][1]
     body = some.get("b")
-    if _has(body, ("break", "continue")):
+    if _has_own_jump(body):
         return None
     out = []
     for r in rows:
